@@ -662,6 +662,7 @@ ChTensordotL == CanChoose("TensordotL") /\ \E a, b \in U : SameCI(a, b) /\ \E k 
                        /\ R(a) + R(b) - 2 * k <= MaxRank
                        /\ (bad = "charge") = ~N(M(a))!CanTensordot(Core(T(a)), Core(T(b)), axa, axb)
                        /\ (bad = "charge" => k = 1 /\ L!IndLen(T(a).legs[axa[1]]) = L!IndLen(T(b).legs[axb[1]]))
+                       /\ (bad = "unknown" => k = 1)
                        /\ Choose([op |-> "tensordot_l", a |-> a, b |-> b,
                                   la |-> [j \in 1..k |-> IF bad = "unknown" /\ j = 1 THEN LabArg(UnknownLabel) ELSE ArgOf(T(a), axa[j], TRUE)],
                                   lb |-> [j \in 1..k |-> ArgOf(T(b), axb[j], TRUE)]])
